@@ -345,6 +345,29 @@ func c06LocalReads(c *Ctx) {
 	}
 }
 
+// isRecvFieldLoad: v is a load of field `field` of fn's receiver, decided on the SSA shape (a receiver
+// bound or built at a single site is otherwise described by the struct bound there).
+func isRecvFieldLoad(v ssa.Value, fn *ssa.Function, field string) bool {
+	for {
+		if ct, ok := v.(*ssa.ChangeType); ok {
+			v = ct.X
+		} else if cv, ok := v.(*ssa.Convert); ok {
+			v = cv.X
+		} else {
+			break
+		}
+	}
+	u, ok := v.(*ssa.UnOp)
+	if !ok || len(fn.Params) == 0 {
+		return false
+	}
+	fa, ok := u.X.(*ssa.FieldAddr)
+	if !ok || fa.X != ssa.Value(fn.Params[0]) {
+		return false
+	}
+	return structFieldName(deref(fa.X.Type()), fa.Field) == field
+}
+
 // commandCodec: one type byte written before the msgpack body and one skipped before decoding; same handle both ways.
 func commandCodec(c *Ctx, rule string) {
 	p := c.P
@@ -361,7 +384,7 @@ func commandCodec(c *Ctx, rule string) {
 		}
 		switch cc.StaticCallee().Name() {
 		case "WriteByte":
-			if p.TermOf(cc.Args[1]).IsField("id", isParam(enc, 0)) {
+			if p.TermOf(cc.Args[1]).IsField("id", isParam(enc, 0)) || isRecvFieldLoad(cc.Args[1], enc, "id") {
 				wb = in
 			}
 		case "Write":
